@@ -113,6 +113,31 @@ def Row.roundTrip (r : Row) (xs : List α) : Except String (List α) :=
   | .ok ys => alignInputs r.nng r.wtflite ys
   | .error e => .error e
 
+/-! ### decidable round-trip check of one row (what `decide` evaluates over the regenerated table) -/
+
+/-- strictly above every element -/
+def listBound : List Nat → Nat
+  | [] => 0
+  | x :: xs => max (x + 1) (listBound xs)
+
+/-- above every index the row mentions and above the number of indices: from here on `align_inputs_indices`
+    no longer depends on the number of operands (Lemmas/OpIndices.lean) -/
+def Row.bound (r : Row) : Nat :=
+  max (listBound (r.tflite.flat ++ r.nng.flat ++ r.wtflite.flat))
+    (max r.tflite.flat.length (max r.nng.flat.length r.wtflite.flat.length))
+
+/-- reader then writer succeed on `n` operands and their swaps compose to the identity on positions -/
+def Row.rtOk (r : Row) (n : Nat) : Bool :=
+  match alignSwaps r.tflite r.nng n with
+  | .ok s1 =>
+    match alignSwaps r.nng r.wtflite n with
+    | .ok s2 => applySwaps (s1 ++ s2) (List.range n) == List.range n
+    | .error _ => false
+  | .error _ => false
+
+def Row.ok (r : Row) : Bool :=
+  (List.range (r.bound + 1)).all fun n => !r.rightArity n || r.rtOk n
+
 def Indices.ofTri (t : Gen.OpIndices.Tri) : Indices := { ifms := t.1, weights := t.2.1, biases := t.2.2 }
 
 def Row.ofRaw (r : Nat × String × Gen.OpIndices.Tri × Gen.OpIndices.Tri × Gen.OpIndices.Tri) : Row :=
